@@ -31,6 +31,9 @@ try:
     r = sh('git apply %s/demo.diff' % seed)
     out['demo_applies'] = r.returncode == 0
     cmd = 'cargo test -p aquavm-air --features %s --offline --test test_module %s -- --test-threads 1 2>&1 | grep -E "^test |test result|panicked|error(\\[|:)" | head -40' % (feats, filt)
+    if os.environ.get('CONFIRM_DEMO_CMD'):
+        # demonstrations that live in another crate: the full cargo command, e.g. `cargo test -p air-beautifier --offline <filter>`
+        cmd = os.environ['CONFIRM_DEMO_CMD'] + ' 2>&1 | grep -E "^test |test result|panicked|error(\\[|:)" | head -40'
     r = sh(cmd)
     out['demo_with_patch'] = r.stdout[-1500:]
     with_fail = bool(re.search(r'test result: FAILED', r.stdout))
